@@ -179,7 +179,17 @@ func (n *lazyNode) tryAry() bool {
 	return true
 }
 
+// isNull reports whether n stands for a JSON null: a nil node, or a node
+// made from a null operation value.
+func (n *lazyNode) isNull() bool {
+	return n == nil || (n.which == eRaw && n.raw == nil)
+}
+
 func (n *lazyNode) equal(o *lazyNode) bool {
+	if n.isNull() || o.isNull() {
+		return n.isNull() && o.isNull()
+	}
+
 	if n.which == eRaw {
 		if !n.tryDoc() && !n.tryAry() {
 			if o.which != eRaw {
@@ -210,14 +220,6 @@ func (n *lazyNode) equal(o *lazyNode) bool {
 
 			if !ok {
 				return false
-			}
-
-			if (v == nil) != (ov == nil) {
-				return false
-			}
-
-			if v == nil && ov == nil {
-				continue
 			}
 
 			if !v.equal(ov) {
